@@ -693,6 +693,7 @@ static int state_sync_process(struct snapraid_state* state, struct snapraid_pari
 	unsigned waiting_mac;
 	char esc_buffer[ESC_MAX];
 	bit_vect_t* block_enabled;
+	int io_stopped;
 
 	/* the sync process assumes that all the hashes are correct */
 	/* including the ones from CHG and DELETED blocks */
@@ -764,6 +765,7 @@ static int state_sync_process(struct snapraid_state* state, struct snapraid_pari
 
 	/* start all the worker threads */
 	io_start(&io, blockstart, blockmax, block_enabled);
+	io_stopped = 0;
 
 	if (!state_progress_begin(state, blockstart, blockmax, countmax))
 		goto end;
@@ -1341,6 +1343,34 @@ static int state_sync_process(struct snapraid_state* state, struct snapraid_pari
 	}
 
 end:
+	/* stop all the worker threads to complete the pending parity writes */
+	io_stop(&io);
+	io_stopped = 1;
+
+	/* account the errors of the parity writes completed after the latest */
+	/* call at io_write_next(), that otherwise would be silently lost */
+	for (j = 0; j < IO_WRITER_ERROR_MAX; ++j) {
+		if (io.writer_error[j]) {
+			switch (j + IO_WRITER_ERROR_BASE) {
+			case TASK_STATE_IOERROR_CONTINUE :
+			case TASK_STATE_IOERROR :
+				/* LCOV_EXCL_START */
+				log_fatal("DANGER! Unexpected input/output write error in a parity disk.\n");
+				io_error += io.writer_error[j];
+				break;
+				/* LCOV_EXCL_STOP */
+			case TASK_STATE_ERROR_CONTINUE :
+			case TASK_STATE_ERROR :
+				/* LCOV_EXCL_START */
+				log_fatal("WARNING! Unexpected write error in a parity disk.\n");
+				error += io.writer_error[j];
+				break;
+				/* LCOV_EXCL_STOP */
+			}
+			io.writer_error[j] = 0;
+		}
+	}
+
 	state_progress_end(state, countpos, countmax, countsize);
 
 	state_usage_print(state);
@@ -1394,7 +1424,8 @@ end:
 
 bail:
 	/* stop all the worker threads */
-	io_stop(&io);
+	if (!io_stopped)
+		io_stop(&io);
 
 	for (j = 0; j < diskmax; ++j) {
 		struct snapraid_file* file = handle[j].file;
